@@ -99,6 +99,7 @@ Off(t, o) == CASE o = 1 -> 1 [] o = 2 -> Size(t) \div 2 [] o = 3 -> Size(t) - 1 
 CutTok(c) == c \div 10
 CutPos(c) == c % 10
 MaxSize == 4
+ASSUME \A n \in Sizes : n <= MaxSize
 StartOf(f, i) == Cardinality({p \in (1..(i-1)) \X (1..MaxSize) : p[2] <= Size(f[p[1]])})   \* bytes before token i
 Total(f) == StartOf(f, Len(f) + 1)
 Abs(f, c) == StartOf(f, CutTok(c)) + (IF CutPos(c) = 0 THEN Size(f[CutTok(c)]) ELSE Off(f[CutTok(c)], CutPos(c)))
